@@ -135,37 +135,50 @@ Definition map_apply (name : string) (d : mdata) : mdata :=
 Definition kapply (d : mdata) (nk : string * pkind) : mdata :=
   match snd nk with
   | KCtx => with_ctx d (Some (fst nk))
-  | KScalar ptr =>
-      mark_ptr ptr (fst nk) (if mem_str (fst nk) (d_path_params d) then d
-                             else with_query d (d_query_params d ++ [EParam (fst nk)]))
+  | KScalar ptr => mark_ptr ptr (fst nk) (handle_scalar (fst nk) d)
   | KStruct ptr fs => mark_ptr ptr (fst nk) (fold_left (handle_field (fst nk)) fs (with_body d (Some (fst nk))))
   | KMap ptr => mark_ptr ptr (fst nk) (map_apply (fst nk) d)
+  | KOpaque ptr => mark_ptr ptr (fst nk) (with_body d (Some (fst nk)))
   end.
 
 Definition kptr (k : pkind) : bool :=
-  match k with KCtx => false | KScalar p | KStruct p _ | KMap p => p end.
+  match k with KCtx => false | KScalar p | KStruct p _ | KMap p | KOpaque p => p end.
+
+Lemma handle_struct_nofields : forall E pkg n name d,
+  assoc2 (e_structs E) pkg n = None -> handle_struct E pkg n name d = d.
+Proof. intros. unfold handle_struct, struct_fields. rewrite H. reflexivity. Qed.
 
 Lemma step_kapply : forall E t n k d,
-  kind_of E t = Some k ->
+  kind_of E (d_verb d) t = Some k ->
+  bad_name n = false ->
   (is_struct k = true -> d_body d = None) ->
   (is_map k = true -> d_dict d = None) ->
+  (forall pkg s, assoc2 (e_sel E) pkg s = Some SelBasic -> assoc2 (e_structs E) pkg s = None) ->
   handle_param_name E t (COk d) n = COk (kapply d (n, k)).
 Proof.
-  intros E t n k d Hk Hb Hm. unfold handle_param_name. cbn [cbind].
-  assert (Base : forall x ptr, kind_base E x ptr = Some k ->
+  intros E t n k d Hk Hn Hb Hm Hbasic. unfold handle_param_name. cbn [cbind]. rewrite Hn.
+  assert (Base : forall x ptr, kind_base E (d_verb d) x ptr = Some k ->
             cbind (handle_expr E x n d) (fun d' => COk (if ptr then with_is_ptr d' (map_set (d_is_ptr d') n "true") else d'))
             = COk (kapply d (n, k))).
   { intros x ptr Hx. destruct x as [s|pkg s| |y|]; simpl in Hx; try discriminate.
     - cbn [handle_expr]. unfold handle_ident. destruct (is_struct_type E s) eqn:Es.
       + inversion Hx; subst k. unfold set_body. rewrite (Hb eq_refl). cbn [cbind].
         unfold kapply, handle_struct, mark_ptr. simpl. reflexivity.
-      + inversion Hx; subst k. unfold kapply, mark_ptr. simpl.
-        destruct (mem_str n (d_path_params d)); reflexivity.
-    - cbn [handle_expr]. unfold handle_selector. destruct (assoc2 (e_sel E) pkg s) as [[| |]|] eqn:Ea; try discriminate.
+      + inversion Hx; subst k. unfold kapply, mark_ptr. simpl. reflexivity.
+    - cbn [handle_expr]. unfold handle_selector. destruct (assoc2 (e_sel E) pkg s) as [[| | |]|] eqn:Ea; try discriminate.
       + destruct ptr; [discriminate|]. inversion Hx; subst k. reflexivity.
-      + inversion Hx; subst k. unfold set_body. rewrite (Hb eq_refl). cbn [cbind].
-        unfold kapply, handle_struct, mark_ptr. simpl. reflexivity.
-    - inversion Hx; subst k. cbn [handle_expr]. unfold handle_map, kapply, map_apply. cbn [fst snd].
+      + destruct (get_or_delete (d_verb d)) eqn:Eg.
+        * inversion Hx; subst k. unfold kapply, mark_ptr. simpl. reflexivity.
+        * inversion Hx; subst k. unfold set_body. rewrite (Hb eq_refl). cbn [cbind].
+          rewrite handle_struct_nofields by (apply Hbasic; exact Ea).
+          unfold kapply, mark_ptr. simpl. reflexivity.
+      + destruct (assoc2 (e_structs E) pkg s) eqn:Est.
+        * inversion Hx; subst k. unfold set_body. rewrite (Hb eq_refl). cbn [cbind].
+          unfold kapply, handle_struct, mark_ptr. simpl. reflexivity.
+        * inversion Hx; subst k. unfold set_body. rewrite (Hb eq_refl). cbn [cbind].
+          rewrite handle_struct_nofields by exact Est.
+          unfold kapply, mark_ptr. simpl. reflexivity.
+    - inversion Hx; subst k. cbn [handle_expr]. unfold handle_map, kapply, map_apply, get_or_delete. cbn [fst snd].
       rewrite (Hm eq_refl). destruct (String.eqb (d_verb d) "GET" || String.eqb (d_verb d) "DELETE"); reflexivity. }
   destruct t as [s|pkg s| |y|]; try (apply (Base _ false); exact Hk).
   simpl in Hk. cbn [handle_expr is_star]. apply (Base y true). exact Hk.
@@ -226,12 +239,10 @@ Lemma kapply_fields : forall d nk,
                then Some (fst nk) else d_dict d).
 Proof.
   intros d [n k]. unfold kapply, q_of, aw_of, pw_of. cbn [fst snd].
-  destruct k as [|ptr|ptr fs|ptr]; cbn [is_struct is_ctx is_map kptr andb].
+  destruct k as [|ptr|ptr fs|ptr|ptr]; cbn [is_struct is_ctx is_map kptr andb].
   - simpl. rewrite app_nil_r. repeat split; reflexivity.
-  - destruct (mark_ptr_fields ptr n (if mem_str n (d_path_params d) then d
-                                     else with_query d (d_query_params d ++ [EParam n])))
-      as (H1 & H2 & H3 & H4 & H5 & H6 & H7 & H8 & H9).
-    rewrite H1, H2, H3, H4, H5, H6, H7, H8, H9.
+  - destruct (mark_ptr_fields ptr n (handle_scalar n d)) as (H1 & H2 & H3 & H4 & H5 & H6 & H7 & H8 & H9).
+    rewrite H1, H2, H3, H4, H5, H6, H7, H8, H9. unfold handle_scalar.
     destruct (mem_str n (d_path_params d)); simpl; rewrite ?app_nil_r; repeat split; reflexivity.
   - destruct (mark_ptr_fields ptr n (fold_left (handle_field n) fs (with_body d (Some n))))
       as (H1 & H2 & H3 & H4 & H5 & H6 & H7 & H8 & H9).
@@ -242,10 +253,12 @@ Proof.
     rewrite H1, H2, H3, H4, H5, H6, H7, H8, H9. unfold map_apply.
     destruct (String.eqb (d_verb d) "GET" || String.eqb (d_verb d) "DELETE"); simpl; rewrite ?app_nil_r;
       repeat split; reflexivity.
+  - destruct (mark_ptr_fields ptr n (with_body d (Some n))) as (H1 & H2 & H3 & H4 & H5 & H6 & H7 & H8 & H9).
+    rewrite H1, H2, H3, H4, H5, H6, H7, H8, H9. simpl. rewrite app_nil_r. repeat split; reflexivity.
 Qed.
 
 Definition flat_params (ps : list param_decl) : list (string * texpr) :=
-  flat_map (fun p => map (fun n => (n, pd_type p)) (pd_names p)) ps.
+  flat_map (fun p => map (fun n => (n, pd_type p)) (decl_names p)) ps.
 Definition step_name (E : env) (a : cres mdata) (nt : string * texpr) : cres mdata :=
   handle_param_name E (snd nt) a (fst nt).
 
@@ -255,40 +268,47 @@ Proof.
   intros E. induction ps as [|p ps IH]; intros acc; simpl; [reflexivity|].
   unfold flat_params in *. simpl. rewrite fold_left_app. rewrite <- IH. f_equal.
   unfold handle_param. generalize (pd_type p) as t. intros t. generalize acc.
-  induction (pd_names p) as [|n ns IHn]; intros a; simpl; [reflexivity | apply IHn].
+  induction (decl_names p) as [|n ns IHn]; intros a; simpl; [reflexivity | apply IHn].
 Qed.
 
-Lemma typed_params_flat : forall E m,
-  typed_params E m = map (fun nt => (fst nt, kind_of E (snd nt))) (flat_params (md_params m)).
+Lemma typed_params_flat : forall E verb m,
+  typed_params E verb m = map (fun nt => (fst nt, kind_of E verb (snd nt))) (flat_params (md_params m)).
 Proof.
-  intros E m. unfold typed_params, flat_params. induction (md_params m) as [|p ps IH]; simpl; [reflexivity|].
+  intros E verb m. unfold typed_params, flat_params. induction (md_params m) as [|p ps IH]; simpl; [reflexivity|].
   rewrite map_app, IH. f_equal. rewrite map_map. reflexivity.
 Qed.
 
 Definition body_count (d : mdata) : nat := match d_body d with Some _ => 1 | None => 0 end.
 Definition dict_count (d : mdata) : nat := match d_dict d with Some _ => 1 | None => 0 end.
 
+Definition basic_not_struct (E : env) : Prop :=
+  forall pkg s, assoc2 (e_sel E) pkg s = Some SelBasic -> assoc2 (e_structs E) pkg s = None.
+
 Lemma cook_fold : forall E l ks d,
-  map (fun nt => (fst nt, kind_of E (snd nt))) l = map (fun pk : string * pkind => (fst pk, Some (snd pk))) ks ->
+  map (fun nt => (fst nt, kind_of E (d_verb d) (snd nt))) l = map (fun pk : string * pkind => (fst pk, Some (snd pk))) ks ->
+  basic_not_struct E ->
+  (forall n k, In (n, k) ks -> bad_name n = false) ->
   count_kind is_struct ks + body_count d <= 1 ->
   count_kind is_map ks + dict_count d <= 1 ->
   fold_left (step_name E) l (COk d) = COk (fold_left kapply ks d).
 Proof.
-  intros E. induction l as [|[n t] l IH]; intros ks d Hm Hc Hd.
+  intros E. induction l as [|[n t] l IH]; intros ks d Hm HE Hnames Hc Hd.
   - destruct ks; [reflexivity | discriminate].
   - destruct ks as [|[n' k] ks]; [discriminate|]. simpl in Hm. inversion Hm as [[Hn Hk Hrest]]. subst n'.
     cbn [fold_left]. replace (step_name E (COk d) (n, t)) with (handle_param_name E t (COk d) n) by reflexivity.
     unfold count_kind in Hc, Hd. simpl filter in Hc, Hd. cbn [snd] in Hc, Hd.
-    destruct (kapply_fields d (n, k)) as (_ & _ & _ & _ & _ & _ & Hb & _ & Hdd). cbn [fst snd] in Hb, Hdd.
+    destruct (kapply_fields d (n, k)) as (Hv & _ & _ & _ & _ & _ & Hb & _ & Hdd). cbn [fst snd] in Hb, Hdd.
     rewrite (step_kapply E t n k d Hk).
-    + apply IH; [exact Hrest| |].
+    + apply IH; [rewrite Hv; exact Hrest | exact HE | intros n0 k0 Hin; apply (Hnames n0 k0); right; exact Hin | |].
       * unfold body_count in *. rewrite Hb. unfold count_kind.
         destruct (is_struct k); simpl in Hc |- *; destruct (d_body d); simpl in *; lia.
       * unfold dict_count in *. rewrite Hdd. unfold count_kind.
         destruct (is_map k); simpl in Hd |- *;
           destruct (String.eqb (d_verb d) "GET" || String.eqb (d_verb d) "DELETE"); destruct (d_dict d); simpl in *; lia.
+    + apply (Hnames n k). left. reflexivity.
     + intros Hs. rewrite Hs in Hc. simpl in Hc. unfold body_count in Hc. destruct (d_body d); [lia | reflexivity].
     + intros Hs. rewrite Hs in Hd. simpl in Hd. unfold dict_count in Hd. destruct (d_dict d); [lia | reflexivity].
+    + exact HE.
 Qed.
 
 Definition lastk (p : pkind -> bool) (ks : list (string * pkind)) (acc : option string) : option string :=
@@ -386,7 +406,7 @@ Proof.
   - split; [intros [] | intros [[? [? [? [? [[] _]]]]]|[? [[] _]]]].
   - rewrite map_app, in_app_iff, IH. unfold pw_of at 1. cbn [fst snd]. rewrite map_app, in_app_iff. split.
     + intros [[H|H]|[H|H]].
-      * destruct k as [|p|p fs|p]; simpl in H; try contradiction.
+      * destruct k as [|p|p fs|p|p]; simpl in H; try contradiction.
         apply field_pw_keys in H. destruct H as [f [H1 [H2 H3]]].
         left. exists n, p, fs, f. auto.
       * destruct (kptr k) eqn:E; simpl in H; [|contradiction]. destruct H as [H|[]]. subst x.
@@ -407,6 +427,14 @@ Proof.
   unfold count_kind in *. simpl in *. destruct k; simpl in *; try discriminate; apply IH; exact H.
 Qed.
 
+Lemma struct_in_count : forall ks n p fs, In (n, KStruct p fs) ks -> 1 <= count_kind is_struct ks.
+Proof.
+  unfold count_kind. induction ks as [|[a b] ks IH]; intros n p fs H; [contradiction|]. simpl in *.
+  destruct H as [H|H].
+  - inversion H; subst. simpl. lia.
+  - destruct (is_struct b); simpl; [lia | eapply IH; exact H].
+Qed.
+
 Lemma aw_of_one_struct : forall ks n ptr fs,
   count_kind is_struct ks <= 1 -> In (n, KStruct ptr fs) ks -> flat_map aw_of ks = map (field_aw n) fs.
 Proof.
@@ -414,12 +442,9 @@ Proof.
   unfold count_kind in *. simpl in *. destruct Hin as [Hin|Hin].
   - inversion Hin; subst. simpl in Hc. unfold aw_of at 1. cbn [fst snd].
     rewrite aw_of_no_struct; [apply app_nil_r | unfold count_kind; lia].
-  - destruct k as [|p|p fs'|p]; cbn [snd is_struct] in Hc; simpl in Hc;
-      try (unfold aw_of at 1; cbn [fst snd app]; eapply IH; [exact Hc | exact Hin]).
-    exfalso. assert (1 <= List.length (filter (fun pk : string * pkind => is_struct (snd pk)) ks)); [|lia].
-    clear - Hin. induction ks as [|[a b] ks IH]; [contradiction|]. simpl in *. destruct Hin as [H|H].
-    + inversion H; subst. simpl. lia.
-    + destruct (is_struct b); simpl; [lia | apply IH; exact H].
+  - destruct k as [|p|p fs'|p|p]; cbn [snd is_struct] in Hc; simpl in Hc;
+      try (unfold aw_of at 1; cbn [fst snd app]; eapply IH; [exact Hc | exact Hin]);
+    (pose proof (struct_in_count _ _ _ _ Hin) as X; unfold count_kind in X; lia).
 Qed.
 
 Lemma forallb_In : forall (A : Type) (p : A -> bool) l x, forallb p l = true -> In x l -> p x = true.
@@ -472,14 +497,6 @@ Proof.
   rewrite Z in H. simpl in H. lia.
 Qed.
 
-Lemma struct_in_count : forall ks n p fs, In (n, KStruct p fs) ks -> 1 <= count_kind is_struct ks.
-Proof.
-  unfold count_kind. induction ks as [|[a b] ks IH]; intros n p fs H; [contradiction|]. simpl in *.
-  destruct H as [H|H].
-  - inversion H; subst. simpl. lia.
-  - destruct (is_struct b); simpl; [lia | eapply IH; exact H].
-Qed.
-
 Lemma one_struct_unique : forall ks n p fs n' p' fs',
   count_kind is_struct ks <= 1 -> In (n, KStruct p fs) ks -> In (n', KStruct p' fs') ks ->
   (n', KStruct p' fs') = (n, KStruct p fs).
@@ -517,7 +534,7 @@ Hypothesis Hg : args_in_guard fmt_v ms args = true.
 
 Lemma wf_unpack :
   forallb wf_tok toks = true /\ NoDup (map fst ps) /\
-  (forall n k, In (n, k) ps -> nonempty n = true /\ no_char "." n = true /\ wf_kind n k = true) /\
+  (forall n k, In (n, k) ps -> (nonempty n = true /\ bad_name n = false) /\ no_char "." n = true /\ wf_kind n k = true) /\
   NoDup (map fst al) /\ NoDup (map snd al) /\
   (forall k v, In (k, v) al -> nonempty v = true /\ no_char "." k = true) /\
   (forall h, In h (holes toks) -> kind_of_param ms (resolve al h) = Some (KScalar false)) /\
@@ -532,17 +549,21 @@ Proof.
   - exact H.
   - apply nodup_str_NoDup. exact W10.
   - pose proof (forallb_In _ _ _ _ W9 H0) as X. simpl in X.
-    apply andb_true_iff in X. destruct X as [X _]. apply andb_true_iff in X. tauto.
+    repeat (apply andb_true_iff in X; let Y := fresh "Y" in destruct X as [X Y]). exact X.
   - pose proof (forallb_In _ _ _ _ W9 H0) as X. simpl in X.
-    apply andb_true_iff in X. destruct X as [X _]. apply andb_true_iff in X. tauto.
+    repeat (apply andb_true_iff in X; let Y := fresh "Y" in destruct X as [X Y]).
+    unfold bad_name, nonempty in *. destruct (String.eqb n EmptyString); [discriminate|].
+    destruct (String.eqb n "_"); [discriminate | reflexivity].
   - pose proof (forallb_In _ _ _ _ W9 H0) as X. simpl in X.
-    apply andb_true_iff in X. tauto.
+    repeat (apply andb_true_iff in X; let Y := fresh "Y" in destruct X as [X Y]). assumption.
+  - pose proof (forallb_In _ _ _ _ W9 H0) as X. simpl in X.
+    repeat (apply andb_true_iff in X; let Y := fresh "Y" in destruct X as [X Y]). assumption.
   - apply nodup_str_NoDup. exact W8.
   - apply nodup_str_NoDup. exact W7.
   - pose proof (forallb_In _ _ _ _ W6 H0) as X. simpl in X. apply andb_true_iff in X. tauto.
   - pose proof (forallb_In _ _ _ _ W6 H0) as X. simpl in X. apply andb_true_iff in X. tauto.
   - intros h Hh. pose proof (forallb_In _ _ _ _ W5 Hh) as X. simpl in X.
-    destruct (kind_of_param ms (resolve al h)) as [[|[|]| |]|]; try discriminate. reflexivity.
+    destruct (kind_of_param ms (resolve al h)) as [[|[|]| | |]|]; try discriminate. reflexivity.
   - intros h Hh Hr Hin. pose proof (forallb_In _ _ _ _ W4 Hh) as X. simpl in X.
     rewrite Hr, String.eqb_refl in X. simpl in X. apply mem_str_In in Hin. rewrite Hin in X. discriminate.
   - apply Nat.leb_le. exact W3.
@@ -636,7 +657,8 @@ Proof.
   apply andb_true_iff in H. destruct H as [H H3]. apply andb_true_iff in H. destruct H as [H1 H2].
   split; [exact H1|]. split.
   - intros h Hh. pose proof (forallb_In _ _ _ _ H2 Hh) as X. simpl in X.
-    destruct (arg_get args (resolve al h)) as [[v| | | |]|]; try discriminate. exists v. auto.
+    destruct (arg_get args (resolve al h)) as [[v| | | |]|]; try discriminate. exists v. split; [reflexivity|].
+    unfold path_text_safe in X. repeat (apply andb_true_iff in X; let Y := fresh "Y" in destruct X as [X Y]). assumption.
   - intros Hb n fs Hin E. rewrite Hb in H3. simpl in H3.
     pose proof (forallb_In _ _ _ _ H3 Hin) as X. simpl in X. rewrite E in X. discriminate.
 Qed.
@@ -733,7 +755,7 @@ Lemma param_writes_typed : forall pk,
 Proof.
   intros [n k] Ht Hn. unfold arg_typed in Ht. unfold not_nil_struct in Hn. cbn [fst snd] in *.
   unfold param_writes, param_ws. cbn [fst snd]. fold al toks hp.
-  destruct k as [|ptr|ptr fs|ptr].
+  destruct k as [|ptr|ptr fs|ptr|ptr].
   - reflexivity.
   - destruct (mem_str n hp); [reflexivity|].
     destruct ptr; destruct (arg_get args n) as [[v|[v|]|? ?|?|?]|]; try discriminate; reflexivity.
@@ -743,6 +765,7 @@ Proof.
       rewrite (wr_fold _ (field_write fmt_v vs) (field_ws vs) fs []); [destruct ptr'; reflexivity|].
       intros f Hin. apply field_write_typed. apply (forallb_In _ _ _ _ Hf Hin).
     + destruct ptr'; [exfalso; apply Hn; reflexivity | destruct ptr; discriminate].
+  - reflexivity.
   - reflexivity.
 Qed.
 
@@ -791,7 +814,7 @@ Proof.
   { intros q'. apply IH; [intros x Hx; apply Hincl; right; exact Hx | intros x Hx; apply Hnn; right; exact Hx]. }
   assert (Hhead : forall q', set_queries fmt_v dfin args (q_of hp (n, k)) q' = QOk (set_list (param_ws (n, k)) q')).
   { intros q'. unfold q_of, param_ws. cbn [fst snd].
-    destruct k as [|ptr|ptr fs|ptr].
+    destruct k as [|ptr|ptr fs|ptr|ptr].
     - reflexivity.
     - destruct (mem_str n hp); [reflexivity|].
       destruct (Hps _ _ Hin) as (_ & Hdot & _).
@@ -808,6 +831,7 @@ Proof.
         apply andb_true_iff in Ht'. destruct Ht' as [_ Hf].
         apply (set_queries_fields n ptr fs ptr' vs Hin Ea fs (incl_refl _) Hf).
       + destruct ptr'; [exfalso; apply Hn1; reflexivity | destruct ptr; discriminate].
+    - reflexivity.
     - reflexivity. }
   rewrite Hhead. apply Hrest.
 Qed.
@@ -850,7 +874,7 @@ Proof.
   intros Hb [n k] Hin. unfold not_nil_struct. cbn [fst]. intros E.
   destruct guard_unpack as (Hty & _ & Hnil). unfold args_typed in Hty. fold ps in Hty.
   pose proof (forallb_In _ _ _ _ Hty Hin) as Ht. unfold arg_typed in Ht. cbn [fst snd] in Ht. rewrite E in Ht.
-  destruct k as [|[|]|[|] fs|?]; try discriminate.
+  destruct k as [|[|]|[|] fs|?|?]; try discriminate.
   apply (Hnil Hb n fs Hin E).
 Qed.
 
@@ -860,7 +884,7 @@ Proof.
   unfold has_query_source. fold ps al toks hp. intros H. split.
   - induction ps as [|[n k] l IH]; [reflexivity|]. simpl in H. apply orb_false_iff in H. destruct H as [H1 H2].
     simpl. rewrite (IH H2), app_nil_r. unfold q_of. cbn [fst snd].
-    destruct k as [|ptr|ptr fs|ptr]; try reflexivity.
+    destruct k as [|ptr|ptr fs|ptr|ptr]; try reflexivity.
     + apply negb_false_iff in H1. rewrite H1. reflexivity.
     + destruct fs; [reflexivity | discriminate].
   - destruct (last_of_kind is_map ps) as [x|] eqn:E; [|reflexivity].
@@ -873,7 +897,7 @@ Lemma has_source_true :
 Proof.
   unfold has_query_source. fold ps al toks hp. intros H.
   apply existsb_exists in H. destruct H as [[n k] [Hin Hk]]. cbn [fst snd] in Hk.
-  destruct k as [|ptr|ptr fs|ptr]; try discriminate.
+  destruct k as [|ptr|ptr fs|ptr|ptr]; try discriminate.
   - left. intros E. assert (X : In (EParam n) (flat_map (q_of hp) ps)).
     { apply in_flat_map. exists (n, KScalar ptr). split; [exact Hin|]. unfold q_of. cbn [fst snd].
       apply negb_true_iff in Hk. rewrite Hk. left. reflexivity. }
@@ -904,7 +928,7 @@ Proof.
   - simpl. rewrite (verb_cases Eb).
     destruct (last_of_kind is_map ps) as [p|] eqn:E; [|reflexivity].
     apply last_of_kind_in in E. destruct E as [k [Hin Hk]]. rewrite (isptr_param _ _ Hin).
-    destruct k as [|?|? ?|ptr]; try discriminate. destruct (Hps _ _ Hin) as (_ & _ & Hw). simpl in Hw.
+    destruct k as [|?|? ?|ptr|?]; try discriminate. destruct (Hps _ _ Hin) as (_ & _ & Hw). simpl in Hw.
     simpl. exact Hw.
 Qed.
 
@@ -962,7 +986,7 @@ Proof.
       { rewrite SQ. destruct (last_of_kind is_map ps) as [p|] eqn:Em.
         - apply last_of_kind_in in Em. destruct Em as [k [Hin Hk]]. rewrite (isptr_param _ _ Hin).
           destruct wf_unpack as (_ & _ & Hps & _). destruct (Hps _ _ Hin) as (_ & _ & Hw).
-          destruct k as [|?|? ?|ptr]; try discriminate. simpl in Hw. apply negb_true_iff in Hw. subst ptr. cbn [kptr].
+          destruct k as [|?|? ?|ptr|?]; try discriminate. simpl in Hw. apply negb_true_iff in Hw. subst ptr. cbn [kptr].
           pose proof (forallb_In _ _ _ _ Hty Hin) as Ht. unfold arg_typed in Ht. cbn [fst snd] in Ht.
           unfold entries_of. destruct (arg_get args p) as [[?|?|? ?|es|?]|]; try discriminate.
           simpl. rewrite fold_set_map. unfold set_all. fold (set_list (flat_map param_ws ps ++ map (fun kv => (fst kv, fmt_v (snd kv))) (sigma_d es)) (url_query url_)).
@@ -1093,27 +1117,55 @@ Qed.
 (* =============================================================== top level *)
 (* the hypotheses that tie a structured method description to what the generator reads *)
 Definition linked (E : env) (m : method_decl) (ms : mspec) : Prop :=
+  env_ok E = true /\
   exists doc,
     md_doc m = Some doc /\
     parse_path doc = PathOk (s_verb ms) (render_toks (s_toks ms)) (holes (s_toks ms)) /\
     parse_alias doc = s_alias ms /\
-    typed_params E m = map (fun pk => (fst pk, Some (snd pk))) (s_params ms).
+    typed_params E (s_verb ms) m = map (fun pk => (fst pk, Some (snd pk))) (s_params ms).
+
+Lemma assoc2_in : forall (V : Type) (l : list ((string * string) * V)) a b v,
+  assoc2 l a b = Some v -> In ((a, b), v) l.
+Proof.
+  induction l as [|[[a' b'] v'] l IH]; intros a b v H; simpl in H; [discriminate|].
+  destruct (String.eqb a' a && String.eqb b' b) eqn:E.
+  - apply andb_true_iff in E. destruct E as [E1 E2]. apply String.eqb_eq in E1. apply String.eqb_eq in E2.
+    inversion H; subst. left. reflexivity.
+  - right. apply IH. exact H.
+Qed.
+
+Lemma env_ok_basic : forall E, env_ok E = true -> basic_not_struct E.
+Proof.
+  intros E H pkg s Hs. apply assoc2_in in Hs. unfold env_ok in H.
+  pose proof (forallb_In _ _ _ _ H Hs) as X. simpl in X.
+  destruct (assoc2 (e_structs E) pkg s); [discriminate | reflexivity].
+Qed.
 
 Lemma cook_method_ok : forall (sigma : oracle) E m ms,
   is_oracle sigma -> linked E m ms -> wf_mspec ms = true ->
   cook_method sigma E m = COk (dfin ms).
 Proof.
-  intros sigma E m ms Hs [doc (Hd & Hp & Ha & Ht)] Hwf.
-  destruct (wf_unpack (fun _ _ => None) (fun _ => []) ms Hwf) as (_ & _ & _ & _ & Hat & _ & _ & _ & _ & Hc & Hcm & Hbody & _).
+  intros sigma E m ms Hs [HE [doc (Hd & Hp & Ha & Ht)]] Hwf.
+  destruct (wf_unpack (fun _ _ => None) (fun _ => []) ms Hwf) as (_ & _ & Hps & _ & Hat & _ & Hh & _ & _ & Hc & Hcm & Hbody & _).
   unfold cook_method. rewrite Hd, Hp, Ha.
   rewrite real_path_params_resolve by assumption.
   rewrite fold_params_flat.
   rewrite (cook_fold E (flat_params (md_params m)) (s_params ms)).
-  - fold (d0 ms). fold (dfin ms). cbn [cbind]. unfold check_body.
-    destruct (dfin_fields ms) as (Hv & _ & _ & _ & _ & _ & Hb & _). rewrite Hv, Hb.
+  - fold (d0 ms). fold (dfin ms). cbn [cbind].
+    destruct (dfin_fields ms) as (Hv & _ & Hpp & _ & _ & _ & Hb & _).
+    assert (Eptr : check_ptr_path (dfin ms) = COk (dfin ms)).
+    { unfold check_ptr_path. rewrite Hpp.
+      destruct (existsb (fun p => is_true_key (d_is_ptr (dfin ms)) p) (map (resolve (s_alias ms)) (holes (s_toks ms)))) eqn:Ex; [|reflexivity].
+      exfalso. apply existsb_exists in Ex. destruct Ex as [p [Hin Hp']].
+      apply in_map_iff in Hin. destruct Hin as [h [Eh Hin]]. subst p.
+      pose proof (kind_of_param_in _ _ _ (Hh h Hin)) as Hpin.
+      rewrite (isptr_param (fun _ _ => None) (fun _ => []) ms Hwf _ _ Hpin) in Hp'. discriminate. }
+    rewrite Eptr. cbn [cbind]. unfold check_body. rewrite Hv, Hb.
     destruct (body_verb (s_verb ms)) eqn:Eb; [|reflexivity].
     destruct (count_pos_last is_struct (s_params ms)) as [x Hx]; [rewrite (Hbody eq_refl); lia|]. rewrite Hx. reflexivity.
   - rewrite <- typed_params_flat. exact Ht.
+  - apply env_ok_basic. exact HE.
+  - intros n k Hin. destruct (Hps n k Hin) as ((_ & Hbn) & _). exact Hbn.
   - simpl. unfold body_count. simpl. lia.
   - simpl. unfold dict_count. simpl. lia.
 Qed.
@@ -1126,7 +1178,8 @@ Proof.
   destruct (md_doc m) as [doc|]; [|discriminate].
   destruct (parse_path doc); try discriminate.
   destruct (fold_left (handle_param E) (md_params m) _) as [d'| |w]; try discriminate.
-  cbn [cbind] in H. unfold check_body in H.
+  cbn [cbind] in H. unfold check_ptr_path in H.
+  destruct (existsb _ (d_path_params d')); [discriminate|]. cbn [cbind] in H. unfold check_body in H.
   destruct (body_verb (d_verb d')) eqn:E1.
   - destruct (d_body d') eqn:E2; [|discriminate]. inversion H; subst. congruence.
   - inversion H; subst. congruence.
